@@ -10,6 +10,8 @@ Op lines (strings percent-encoded; `<hdrs>` = `_` or `k|v;k|v…`; `<list>` = `_
   rq <name> / rs <name>         accumulator := accumulator.Prioritize(object)  → act <action> spoe <n> <var>…
   show <name>                   current state of the object                    → obj <action>
   reqsite <name>… / respsite <name>…   the real fold site on these objects     → spoe <n> <var>…
+  reqpolicy <name>… / resppolicy <name>…  policy-mode fold site, one real remedy per object that
+                                produces an equal (fresh) action                → spoe <n> <var>…
 -/
 open LunarVerif LunarVerif.Proto LunarVerif.C07
 
@@ -153,6 +155,24 @@ def parseSpoe (ws : List String) : Option (List SVar) :=
     | _, _ => none
   | _ => none
 
+/-! ### which actions the harness can obtain from a real remedy (see harness/go/cmd/c07/policy.go) -/
+
+def reqExpressible : ReqAct → Bool
+  | .noop => true
+  | .early _ b h => b == "{\"message\": \"GO Lunar\"}" && h.length == 1 &&
+      h.lookup "powered-by" == some "Lunar Interventions Inc."
+  | .modReq h host path q b => !h.isEmpty && host == "" && path == "" && q == "" && b == ""
+  | _ => false
+
+def respExpressible : RespAct → Bool
+  | .noop => true
+  | .modResp h b s =>
+    h.length == 1 && b == "" && s == 0 &&
+    (match h.lookup "x-lunar-retry-after" with
+     | some v => (match v.toNat? with | some n => toString n == v | none => false)
+     | none => false)
+  | _ => false
+
 /-! ### run -/
 
 structure RunSt where
@@ -210,6 +230,24 @@ def runStep (s : RunSt) (line : String) : RunSt × String :=
     | none =>
       let vals := names.filterMap fun n => (s.store.lookup n).bind Obj.asResp
       (s, fmtEnc (encodeResp (foldResp vals)))
+  | "reqpolicy" :: names =>
+    match names.findSome? (fun n => match s.store.lookup n with
+        | none => some "err:unknown-object"
+        | some o => if o.asReq.isNone then some "err:not-request-action" else none) with
+    | some e => (s, e)
+    | none =>
+      let vals := names.filterMap fun n => (s.store.lookup n).bind Obj.asReq
+      if vals.all reqExpressible then (s, fmtEnc (encodeReq (foldReq vals)))
+      else (s, "err:not-expressible-as-remedy")
+  | "resppolicy" :: names =>
+    match names.findSome? (fun n => match s.store.lookup n with
+        | none => some "err:unknown-object"
+        | some o => if o.asResp.isNone then some "err:not-response-action" else none) with
+    | some e => (s, e)
+    | none =>
+      let vals := names.filterMap fun n => (s.store.lookup n).bind Obj.asResp
+      if vals.all respExpressible then (s, fmtEnc (encodeResp (foldResp vals)))
+      else (s, "err:not-expressible-as-remedy")
   | ["show", name] =>
     match s.store.lookup name with
     | none => (s, "err:unknown-object")
@@ -266,6 +304,16 @@ def judgeStep (s : JudgeSt) (op out : String) : JudgeSt :=
     | some ins, some vs =>
       let all := s.names ++ names
       { s with names := all, obs := (.reqSite ins vs, all) :: s.obs }
+    | _, _ => { s with bad := some ("unparsable-answer:" ++ pctEnc out) }
+  | "reqpolicy" :: names =>
+    if out.startsWith "err:" then s else
+    match names.mapM (fun n => (s.defs.lookup n).bind Obj.asReq), parseSpoe (words out) with
+    | some ins, some vs => { s with obs := (.reqSite ins vs, s.names) :: s.obs }
+    | _, _ => { s with bad := some ("unparsable-answer:" ++ pctEnc out) }
+  | "resppolicy" :: names =>
+    if out.startsWith "err:" then s else
+    match names.mapM (fun n => (s.defs.lookup n).bind Obj.asResp), parseSpoe (words out) with
+    | some ins, some vs => { s with obs := (.respSite ins vs, s.names) :: s.obs }
     | _, _ => { s with bad := some ("unparsable-answer:" ++ pctEnc out) }
   | "respsite" :: names =>
     if out.startsWith "err:" then s else
